@@ -271,7 +271,7 @@ HARMLESS = [
     ("setup_shape", "setup: `is`, early return, tuple assignment, float('-inf'), -math.inf, imported names, alias", h_setup_shape),
     ("renamed_args", "handle arguments renamed, a default for the parameter", h_renamed_args),
     ("products", "x**2 -> x*x, a/b -> a*(1/b), common factors pulled out, exp(model) formed once", h_products),
-    ("softplus", "overflow-safe softplus max(m,0)+log1p(exp(-|m|)) (kink at 0: the generic proof does not apply)", h_softplus),
+    ("softplus", "overflow-safe softplus max(m,0)+log1p(exp(-|m|)) (kink at 0: proved through its closed form)", h_softplus),
 ]
 
 
